@@ -18,6 +18,7 @@ import (
 	"errors"
 	"fmt"
 	"os"
+	"path/filepath"
 	"sort"
 	"strings"
 	"sync"
@@ -789,6 +790,7 @@ func c20Shutdown(e *vEngine) {
 func TestVerifC20(t *testing.T) {
 	r := evid.Start("C20", "model_checking")
 	c20Dir = t.TempDir()
+	evid.CleanupDir(filepath.Dir(c20Dir))
 	maxBlocks := evid.Pick(r, 4, 5)
 	depth := evid.Pick(r, 7, 9)
 	exec := func(prop string, cache int, sync bool) func(h []int) seqx.Result {
@@ -844,6 +846,7 @@ func TestVerifC20(t *testing.T) {
 func TestVerifC21(t *testing.T) {
 	r := evid.Start("C21", "model_checking")
 	c20Dir = t.TempDir()
+	evid.CleanupDir(filepath.Dir(c20Dir))
 	maxBlocks := evid.Pick(r, 4, 5)
 	depth := evid.Pick(r, 7, 9)
 	states, trans := 0, 0
@@ -903,9 +906,11 @@ func c20Replay(t *testing.T, exec func([]int) seqx.Result) {
 	fmt.Println("replay", c20Hist(h))
 	if res.Violation != nil {
 		fmt.Println("  violation:", res.Violation.Key, res.Violation.What)
+		evid.RunCleanup()
 		os.Exit(1)
 	}
 	fmt.Println("  held")
+	evid.RunCleanup()
 	os.Exit(0)
 }
 
